@@ -171,10 +171,21 @@ def transient_sequences(gen: Any, rng: Any, n_classes: int) -> dict[str, Any]:
                 violations.append({"key": f"{path}-decode-sequence-raises-{type(e).__name__}", "what": f"decode sequence failed: {type(e).__name__}: {str(e)[:200]}", "replay": replay})
                 continue
             decoded[path] = y2
-            if not ok1:
+
+            def serialized_equal(x: Any, y: Any) -> bool:
+                return type(x) is type(y) and all(H.deep_eq(getattr(x, f.name), getattr(y, f.name)) for f in cd.fields if f.kind != "transient")
+
+            if not ok1 and not serialized_equal(x1, y1):
                 violations.append({"key": H.finding_key(gen, cd, x1, y1), "what": f"{path}: first decode differs from the instance", "replay": {**replay, "decoded": repr(y1)[:400]}})
+            elif not ok1:  # the transient default itself is not fresh (polluted through another path of the same class)
+                violations.append({"key": f"{path}-decode-polluted-by-earlier-instance-transient-mutation",
+                                   "what": f"{path}: a decoded instance's transient field does not hold a fresh default", "replay": {**replay, "which": "y1", "decoded": repr(y1)[:400]}})
             for label, y, x in (("y2", y2, x1), ("y3", y3, x2)):
-                if not H.deep_eq(y, x):
+                if H.deep_eq(y, x):
+                    continue
+                if not serialized_equal(x, y):
+                    violations.append({"key": H.finding_key(gen, cd, x, y), "what": f"{path}: decode differs from the instance in a serialized field", "replay": {**replay, "which": label, "decoded": repr(y)[:400]}})
+                else:
                     violations.append({"key": f"{path}-decode-polluted-by-earlier-instance-transient-mutation",
                                        "what": f"{path}: a decode made after an earlier decoded instance mutated its transient field in place does not equal the original instance",
                                        "replay": {**replay, "which": label, "decoded": repr(y)[:400]}})
